@@ -15,7 +15,7 @@ MANIFEST = {
             'it is sampled. cachetools LRU is not modelled (eviction is exercised, not proved).',
 }
 RULE = ('stream engine (mode paired): program x oracle x two schedules (+evict, +restart); non-trivial = all paired '
-        'cases; distinct = distinct (definition, oracle, both schedule seeds); stream core as in C01')
+        'cases; distinct = distinct (definition, oracle, both schedule seeds); stream core as in C01; stream ctx as in C05 (the real data-flow functions on generated publish histories, every inbound context in all row orders, against Mistral.Ctx + order-independence monitor)')
 TRUSTED = ['harness seams replaced by recorders']
 LEAN_MODULES = ['Mistral.Props.C02']
 
@@ -25,14 +25,26 @@ def correspond(ctx):
     par.run_parallel(ctx, 'harness.engine_stream', 'run_chunk',
                      [{'n_programs': ctx.n(12, 400), 'props': ['C02'], 'mode': 'paired'}] * 14)
     par.run_parallel(ctx, 'harness.core_stream', 'run_chunk', [{'n_programs': ctx.n(8, 200), 'mode': 'plain'}] * 14)
+    # the tie of merge_order_independent: the REAL data-flow functions on generated publish histories with every
+    # inbound context evaluated in ALL row orders (joins <= 4 parents) against Mistral.Ctx, and the monitor
+    # "the upstream context does not depend on the order the rows are listed when no publishers are concurrent"
+    par.run_parallel(ctx, 'harness.ctx_stream', 'run_chunk', [{'n_histories': ctx.n(100, 3000)}] * 14)
 
 
 def search(ctx):
     from vlib import par
+    par.run_parallel(ctx, 'harness.ctx_stream', 'run_chunk', [{'n_histories': 1000}] * 14)
+    if ctx.violations:
+        return
     par.run_parallel(ctx, 'harness.engine_stream', 'run_chunk',
                      [{'n_programs': 40, 'props': ['C02'], 'mode': 'paired'}] * 14)
 
 
 def replay(ctx, rep):
+    r = rep.get('replay', rep)
+    if isinstance(r, dict) and 'history' in r:
+        from harness import ctx_stream
+        ctx_stream.replay(ctx, r)
+        return
     from harness import engine_stream
     engine_stream.replay(ctx, rep, ['C02'])
